@@ -675,11 +675,20 @@ def valueOf : List Frame → Name → Option Val
   | [], _ => none
   | f :: up, p => (f.raw.lookup p).map (resolve f.parent (valueOf up))
 
+/-- the materialised parameters of the innermost frame: every argument (or declared default) as written by the
+caller, resolved against the enclosing call chain — whether or not the component interpolates the parameter into its
+`command.arguments` -/
+def chainEnv : List Frame → Env
+  | [] => []
+  | f :: up => f.raw.map fun a => (a.1, resolve f.parent (valueOf up) a.2)
+
 structure SpecInst where
   loc : Loc
   args : Val
   /-- value, along the call chain, of the parameter the component uses as its environment -/
   env : Option Val := none
+  /-- value, along the call chain, of every parameter of the component -/
+  params : Env := []
   deriving DecidableEq, Repr
 
 /-- every path of step names from the entrypoint that ends in a component step, in `execute` order, with the
@@ -689,13 +698,14 @@ def specVisit (ns : Namespace) : Nat → List Name → Loc → Template → List
   | fuel + 1, avail, loc, t, chain =>
     match t.body with
     | .component arguments envParam _ _ =>
-      [⟨loc, merge (substV (valueOf chain) arguments), envParam.bind (valueOf chain)⟩]
+      [⟨loc, merge (substV (valueOf chain) arguments), envParam.bind (valueOf chain), chainEnv chain⟩]
     | .workflow steps execute =>
       (childrenOf ns avail t steps 0 execute).flatMap fun c =>
         specVisit ns fuel (avail.erase c.callee.name) (loc ++ [c.target]) c.callee (⟨loc, c.raw⟩ :: chain)
 
 def Inst.toSpec (i : Inst) : SpecInst :=
-  ⟨i.loc, merge (substV (fun p => i.params.lookup p) i.arguments), i.envParam.bind (fun p => i.params.lookup p)⟩
+  ⟨i.loc, merge (substV (fun p => i.params.lookup p) i.arguments), i.envParam.bind (fun p => i.params.lookup p),
+    i.params⟩
 
 def flattenSpec (ns : Namespace) : List SpecInst :=
   match ns.find ns.entry with
@@ -709,5 +719,57 @@ path is a prefix of the (absolute) location of one of its complete output refere
 def specEdges (insts : List SpecInst) : List (Loc × Loc) :=
   insts.flatMap fun i => (fullRefs i.args).filterMap fun r =>
     (insts.find? (fun p => p.loc.isPrefixOf r.1)).map fun p => (i.loc, p.loc)
+
+/-- the complete output references that reach a component only as parameter values (e.g. `<producer>/file:copy`
+handed over to stage a file; the parameter need not be interpolated into `command.arguments`) -/
+def SpecInst.paramRefs (i : SpecInst) : List (Loc × S) := i.params.flatMap fun a => fullRefs a.2
+
+/-- producer/consumer relation through the parameter values -/
+def specParamEdges (insts : List SpecInst) : List (Loc × Loc) :=
+  insts.flatMap fun i => i.paramRefs.filterMap fun r =>
+    (insts.find? (fun p => p.loc.isPrefixOf r.1)).map fun p => (i.loc, p.loc)
+
+/-- the whole producer/consumer relation of the specification: through `command.arguments` and through parameters -/
+def specEdgesAll (insts : List SpecInst) : List (Loc × Loc) := specEdges insts ++ specParamEdges insts
+
+/-! ## environments of the compiled FlowIR
+
+`namespace_to_flowir` does not store the environment dictionary inside the component: it registers it under a name
+`env<k>` in the `environments` section and writes the name into `command.environment`.  Two components share one
+entry when `hash_environment` gives the same key for their dictionaries.  The hash is a parameter `h` of the model
+(the code: the sorted `(name, str(value))` pairs); the table holds `(hash, dictionary)` in registration order, the
+name of an entry is its index. -/
+
+/-- index of the first entry registered under the hash `hv` (`known_environments[dict_hash]`) -/
+def findSlot {H : Type} [DecidableEq H] (hv : H) : List (H × S) → Option Nat
+  | [] => none
+  | e :: r => if e.1 = hv then some 0 else (findSlot hv r).map (· + 1)
+
+/-- one component with a dictionary environment: the name (index) it is bound to and the table afterwards -/
+def bindEnv {H : Type} [DecidableEq H] (h : S → H) (tab : List (H × S)) (d : S) : Nat × List (H × S) :=
+  match findSlot (h d) tab with
+  | some k => (k, tab)
+  | none => (tab.length, tab ++ [(h d, d)])
+
+/-- the loop over the components (those with a dictionary environment), in order -/
+def bindAll {H : Type} [DecidableEq H] (h : S → H) : List (H × S) → List S → List Nat × List (H × S)
+  | tab, [] => ([], tab)
+  | tab, d :: r =>
+    let (k, tab1) := bindEnv h tab d
+    let (ks, tab2) := bindAll h tab1 r
+    (k :: ks, tab2)
+
+/-- names `env<k>` of the components of a compiled namespace in component order (`none`: no dictionary), hashing a
+dictionary by its canonical text -/
+def envNames (cs : List Comp) : List (Option Nat) :=
+  let ds := cs.filterMap fun c => match c.env with | .dict d => some d | _ => none
+  let ks := (bindAll (fun d => d) [] ds).1
+  let rec go : List Comp → List Nat → List (Option Nat)
+    | [], _ => []
+    | c :: r, ks => match c.env, ks with
+      | .dict _, k :: ks' => some k :: go r ks'
+      | .dict _, [] => none :: go r []
+      | _, ks => none :: go r ks
+  go cs ks
 
 end St4sd.Dsl
